@@ -12,4 +12,6 @@ for c in "$@"; do for s in 1 2; do
   if echo "$out" | grep -q "^VIOLATION"; then res="$res $c/$s:ALARM"; cp -f replays/$c-*-$s.json "refactors/$d/" 2>/dev/null; else res="$res $c/$s:quiet"; fi
 done; done
 git -C /repo checkout -- .
+# what the run wrote from the patched tree must not stay: the generated level table and the evidence files
+git -C /verif checkout -- evidence lean/MechVerif/Gen 2>/dev/null
 echo "RESULT $d:$res"
